@@ -3,6 +3,6 @@ NOTES = ("All checks: ./check <id> --tier quick|thorough. Each run rebuilds the 
          "with -tags verif, re-checks the Lean theorems of the property and runs the correspondence. "
          "KNOWN_FINDINGS.txt lists recorded and fixed defects.")
 # properties whose check is registered in MANIFEST.json
-CLAIMED = ["C01", "C02", "C03", "C04", "C05", "C06", "C07", "C08", "C09", "C10", "C11", "C12", "C13", "C15", "C16", "C17", "C18", "C19", "C20"]
+CLAIMED = ["C01", "C02", "C03", "C04", "C05", "C06", "C07", "C08", "C09", "C10", "C11", "C12", "C13", "C14", "C15", "C16", "C17", "C18", "C19", "C20"]
 _UC = "check under construction in this round (will be claimed once its theorem and correspondence exist)"
 NOT_APPLICABLE = {f"C{i:02d}": _UC for i in range(1, 21)}
